@@ -136,7 +136,7 @@ class World:
 
     def __init__(self, choices: Choices, *, timecode=False, log_level=logging.ERROR,
                  send_msg_timing=True, p_notwritable=(0, 1), arrival_bias=5,
-                 max_rounds=20000, debug=None):
+                 max_rounds=20000, debug=None, console=False):
         self.choices = choices
         self.clock = Clock()
         self.baton = Baton()
@@ -150,6 +150,7 @@ class World:
         self.max_rounds = max_rounds
         # MessageManager(debug=...) is a configuration like any other: drawn per run unless given
         self.debug = bool(choices.flag("cfg.mgr_debug", 1, 4)) if debug is None else bool(debug)
+        self.console = console         # keep the rich console log handler (rendering into a buffer)
         self.mgr = None
         self.mgr_task: Optional[Task] = None
         self.mgr_state = "new"                  # new | select | recv | running | dead
@@ -220,7 +221,16 @@ class World:
             mgr = M.MessageManager(ip_address="127.0.0.1", port=self.PORT,
                                    timecode=self.timecode, log_level=logging.CRITICAL + 10,
                                    debug=self.debug, send_msg_timing=self.send_msg_timing)
-        mgr.logger.enable_console = False
+        if self.console:
+            import io
+            from rich.console import Console
+            h = mgr.logger.console_handler
+            if h is not None and hasattr(h, "console"):
+                h.console = Console(file=io.StringIO(), force_terminal=False, width=200)
+            else:
+                mgr.logger.enable_console = False
+        else:
+            mgr.logger.enable_console = False
         mgr.logger.set_all_levels(self.log_level)
         self._loggers.append(mgr.logger.logger.name)
         self.mgr = mgr
